@@ -545,6 +545,9 @@ func (b *Builder) LeafList(o interface{}, ident string) *LeafList {
 func (b *Builder) Any(o interface{}, ident string) *Any {
 	x := Any{
 		ident: ident,
+		// its own type object: one shared by every anydata of every module would be compiled
+		// (written) by whichever load met it first
+		dtype: newType("any"),
 	}
 	if h, valid := b.parentDataDefinition(o, ident); valid {
 		x.parent = h
